@@ -13,10 +13,51 @@ CANON = call(r"= TieredEngine::canonical_vector_state\(", name="canonical_vector
 CANON_MATCH = lambda nth=None: Arm(r"^discr\(call TieredEngine::canonical_vector_state\)$", {"0"}, name="canonical_vector_state == Match", nth=nth)
 SOME_VEC_TIER = lambda tier: stmt(r"= (tiered_engine::)?PointQueryTier::%s;$" % tier, name="serve from " + tier)
 
+def token_compared_in_full(F):
+    """Match must be guarded by a comparison of the *whole* token (version and digest): either the
+    derived PartialEq on VectorCoherenceToken, or field comparisons that cover field .0 (version) and
+    field .1 (digest).  A guard that compares only part of the token is a violation."""
+    from vlib.mirflow import origin as _o
+    import re as _re
+    fc = FnCheck(F, T + "canonical_vector_state")
+    if fc.fn is None:
+        return fc.missing()
+    MATCH = stmt(r"^_0 = (tiered_engine::)?CanonicalVectorState::Match;$", name="return Match")
+    whole = Arm(r"^call <VectorCoherenceToken as PartialEq>::(ne|eq)$", {"0", "otherwise"})
+    if whole.switches(fc.fn):
+        neq = Arm(r"^call <VectorCoherenceToken as PartialEq>::ne$", {"0"}, name="tokens equal (ne == false)")
+        eq = Arm(r"^call <VectorCoherenceToken as PartialEq>::eq$", {"otherwise"}, name="tokens equal (eq == true)")
+        return fc.only_via(MATCH, neq if neq.switches(fc.fn) else eq)
+    # field-wise comparison: collect the token fields mentioned by Ne/Eq guards that Match depends on
+    fields = set()
+    guards = []
+    for b in fc.fn.blocks.values():
+        if b.cleanup or b.kind != "switch":
+            continue
+        o = _o(fc.fn, b.switch_local)
+        m = _re.match(r"^(Ne|Eq)\(.*VectorCoherenceToken\)\}\)?\.(\d+): [^)]*\), \(\{arg\(_\d+: VectorCoherenceToken\)\}\.(\d+): ", o)
+        if m and m.group(2) == m.group(3):
+            arm = Arm("^" + _re.escape(o) + "$", {"0"} if m.group(1) == "Ne" else {"otherwise"}, name="token field .%s equal" % m.group(2))
+            r = fc.only_via(MATCH, arm)
+            if r.verdict == "holds":
+                fields.add(m.group(2))
+                guards.append(r)
+    q = sum(g.queries for g in guards)
+    sec = sum(g.seconds for g in guards)
+    if fields >= {"0", "1"}:
+        return Result("holds", "Match guarded by field-wise comparison of version and digest", queries=q, seconds=sec, sample={"fn": fc.name, "kind": "ONLY_VIA", "fields": sorted(fields)})
+    r = fc.reachable(MATCH)
+    if r.verdict == "holds":
+        return Result("violated", "Match is reachable after comparing only token field(s) %s with the canonical token (version=.0, digest=.1): a stale copy with an equal %s is served" % (
+            sorted(fields) or "none", "version" if fields == {"0"} else "part"), queries=q + r.queries, seconds=sec + r.seconds,
+            sample={"fn": fc.name, "kind": "ONLY_VIA", "fields_compared": sorted(fields)})
+    return Result("inconclusive", "Match not reachable / pattern not matched")
+
+
 MOS = [
     MO("O4.1", "canonical_vector_state: Match only when the canonical token exists, is equal to the mirrored token, and the payload matches its digest",
        allof(only_via(T + "canonical_vector_state", stmt(r"^_0 = (tiered_engine::)?CanonicalVectorState::Match;$", name="return Match"), Arm(r"^discr\(call HnswBackend::current_coherence_token\)$", {"1"}, name="canonical token is Some")),
-             only_via(T + "canonical_vector_state", stmt(r"^_0 = (tiered_engine::)?CanonicalVectorState::Match;$", name="return Match"), Arm(r"^call <VectorCoherenceToken as PartialEq>::ne$", {"0"}, name="tokens equal")),
+             token_compared_in_full,
              only_via(T + "canonical_vector_state", stmt(r"^_0 = (tiered_engine::)?CanonicalVectorState::Match;$", name="return Match"), Arm(r"^call (coherence::)?embedding_matches_token$", {"otherwise"}, name="payload matches digest"))),
        functions=[("tiered_engine.rs", "canonical_vector_state")]),
     MO("O4.2/query_with_source", "query_with_source: a cache hit / hot-tier hit is served only through canonical_vector_state == Match; every hit is validated",
